@@ -668,7 +668,7 @@ def ConsistentOn (cfg : Cfg) (V : List (List Block)) : Prop := Agree (fun i => (
 
 /-- **C37 corollary, stronger variant** also for *different* certificates of the same chunk,
 when the signers only sign references that match the chunk (`signed_reference_consistent`; not
-enforced by the unrepaired code, see `c37_forged_certificate_delivered_twice`). -/
+enforced by the code as it is, see `c37_forged_certificate_delivered_twice`). -/
 theorem no_chunk_delivered_twice_consistent (cfg : Cfg) (n : Node) (acc : List Block) (d : List Nat)
     (V : List (List Block)) (h : Reach cfg n acc d V) (hc : ConsistentOn cfg V) : d.Nodup :=
   no_chunk_delivered_twice cfg _ n acc d V h hc
@@ -1007,7 +1007,7 @@ theorem builder_never_produces_such (cfg : Cfg) (E : Nat → Nat) (n : Node) (ac
   rw [hid, this] at hs
   cases hs
 
-/-! ## Non-vacuity: the chain that broke the unrepaired code -/
+/-! ## Non-vacuity: the chain that broke the code before a3a0c38 (no expiry check in `Verify`) -/
 def exCfg : Cfg := { U := fun i => ⟨1, if i = 4 then 10 else 12, 100, true⟩, window := 5, limit := 1000000, maxSkew := 30 }
 def c4 : Cert := ⟨4, 10, true⟩
 def c8 : Cert := ⟨8, 12, true⟩
@@ -1049,7 +1049,40 @@ example : LiteralReuse [[b2, b1], [b1]] := by
   intro c hc c' hc' hid
   simp [allCerts, b2, b1] at hc hc'
   rcases hc with rfl | rfl | rfl <;> rcases hc' with rfl | rfl | rfl <;> simp_all [c4, c8]
-example : Reach exCfg Node.init [] [] [] := Reach.init
+
+/-! a `Reach` witness for the chain genesis ← b1 ← b2 above: verify b1, accept it, index it,
+verify b2 on it, accept it; chunks 4 and 8 are delivered. -/
+theorem reach_n0 : Reach exCfg n0 [] [] [] :=
+  Reach.env Node.init [] [] [] n0.st [genesis] Reach.init
+
+theorem reach_b1_verified : Reach exCfg n0 [] [] [[b1]] :=
+  Reach.verify n0 [] [] [] b1 genesis [] reach_n0 rfl (Walk.stop genesis (Or.inl (by decide)))
+    (Or.inl rfl) (by decide)
+
+theorem reach_b1_accepted : Reach exCfg (accept exCfg n0 b1 []).1 [b1] ([] ++ [4]) [[b1]] :=
+  Reach.accept n0 _ [] [] [[b1]] b1 [] [4] reach_b1_verified List.mem_cons_self
+    (Prod.ext rfl (by decide))
+
+theorem reach_n1 : Reach exCfg n1 [b1] ([] ++ [4]) [[b1]] :=
+  Reach.env _ [b1] _ [[b1]] (accept exCfg n0 b1 []).1.st [genesis, b1] reach_b1_accepted
+
+theorem reach_b2_verified : Reach exCfg n1 [b1] ([] ++ [4]) [[b2, b1], [b1]] :=
+  Reach.verify n1 [b1] _ [[b1]] b2 b1 [] reach_n1 rfl (Walk.stop b1 (Or.inl (by decide)))
+    (Or.inl rfl) (by decide)
+
+theorem reach_b2_accepted :
+    Reach exCfg (accept exCfg n1 b2 []).1 [b2, b1] (([] ++ [4]) ++ [8]) [[b2, b1], [b1]] :=
+  Reach.accept n1 _ [b1] _ [[b2, b1], [b1]] b2 [] [8] reach_b2_verified List.mem_cons_self
+    (Prod.ext rfl (by decide))
+
+theorem literal_b1_b2 : LiteralReuse [[b2, b1], [b1]] := by
+  intro c hc c' hc' hid
+  simp [allCerts, b2, b1] at hc hc'
+  rcases hc with rfl | rfl | rfl <;> rcases hc' with rfl | rfl | rfl <;> simp_all [c4, c8]
+
+/-- `no_chunk_delivered_twice_literal` applied to a history that really delivers chunks -/
+example : ((([] : List Nat) ++ [4]) ++ [8]).Nodup :=
+  no_chunk_delivered_twice_literal exCfg _ _ _ _ reach_b2_accepted literal_b1_b2
 example : ¬ (verify exCfg n1 b1 ⟨9, 1, 2, 9, [c4]⟩ = .ok) := by decide
 
 end HyperModel.Props.C37
